@@ -454,5 +454,6 @@ int main(int argc, char **argv)
   c15::register_locale();
   c15::register_state();
   c15::register_env();
+  c15::register_loglevel();
   return vrt::run(argc, argv);
 }
